@@ -1,11 +1,461 @@
 import Driver.Json
+import OomdModel.Rank
 
-/-! Driver glue for engine `rank` (stub: not built yet). -/
+/-! Driver glue for engine `rank` (C09).
+
+`accepts`: the statistics the implementation reports equal the model's (`Float`/`Float32` instance,
+bit for bit) and the implementation's order is one `sortDescWithKillPrefs` may produce from the
+model's `(preference, key)` entries.
+
+`holds`: decided on the implementation's order alone by an oracle in exact rational arithmetic that
+restates the documented policy and does not use the model's key functions: the first choice is a
+maximum of the documented order among the equally-preferred siblings passing the filter, and no
+cgroup failing the filter appears.  Where the code legitimately rounds (double/float arithmetic,
+truncation to whole bytes) the oracle works with intervals, so a decision that depends on rounding is
+tolerated; such scenarios are counted (`rounding`). -/
 namespace Driver.Rank
-open Lean
+open Lean OomdModel.Rank
+
+/-! ### parsing -/
+
+def sInt (s : String) : Int :=
+  if s == "max" then int64Max else (s.trimAscii.toString.toInt?).getD 0
+
+def fInt (j : Json) (k : String) (dflt : Int := 0) : Int :=
+  match jstr? j k with
+  | some s => sInt s
+  | none => dflt
+
+/-- "10.93" ↦ (1093, 2) -/
+def parseDec (s : String) : Nat × Nat :=
+  match s.splitOn "." with
+  | [a] => (a.toNat?.getD 0, 0)
+  | [a, b] => ((a ++ b).toNat?.getD 0, b.length)
+  | _ => (0, 0)
+
+def fDec (j : Json) (k : String) : Nat × Nat :=
+  match jstr? j k with
+  | some s => parseDec s
+  | none => (0, 0)
+
+def decRat (d : Nat × Nat) : Rat := (d.1 : Rat) / ((10 ^ d.2 : Nat) : Rat)
+
+structure Sib where
+  name : String
+  idx : Nat
+  prefS : Int
+  target : Bool
+  born : Nat
+  ticks : List Json
+
+def prefOf (s : String) : Int :=
+  match s with
+  | "prefer" => killPreference true false false false
+  | "uprefer" => killPreference false true false false
+  | "avoid" => killPreference false false true false
+  | "uavoid" => killPreference false false false true
+  | "both" => killPreference true false true false
+  | _ => killPreference false false false false
+
+def sibsOf (sc : Json) : List Sib :=
+  (jarr sc "sibs").zipIdx.map fun (j, i) =>
+    { name := jstr j "name", idx := i, prefS := prefOf (jstr j "pref"),
+      target := (jbool? j "target").getD true, born := jnat j "born", ticks := jarr j "ticks" }
+
+/-- files of the sibling at tick `t` (harness: index `min (t - born) (len - 1)`) -/
+def Sib.at (s : Sib) (t : Nat) : Json :=
+  s.ticks.getD (Nat.min (t - s.born) (s.ticks.length - 1)) Json.null
+
+def tickAt (l : List Json) (t : Nat) : Json := l.getD (Nat.min t (l.length - 1)) Json.null
+
+/-! ### model statistics, generic in the number instance -/
+
+section
+variable (D F : Type) [Num D] [Num F] [Narrow D F]
+
+def coeffsOf (a : List Json) : List D := a.map fun j => let d := parseDec (asStr j); Num.ofDec d.1 d.2
+
+def ioLines (sc : Json) (tick : Json) : List (IoLine D) :=
+  (jarr tick "io").filterMap fun l =>
+    let a := asArr l
+    let dev := asStr (a.getD 0 Json.null)
+    let cs : Option (List D) :=
+      if dev == "8:0" then some (coeffsOf D (jarr sc "ssd"))
+      else if dev == "8:16" then some (coeffsOf D (jarr sc "hdd")) else none
+    cs.map fun c =>
+      let g := fun (i : Nat) => sInt (asStr (a.getD i Json.null))
+      let z : D := Num.zero
+      { rbytes := g 1, wbytes := g 2, rios := g 3, wios := g 4, dbytes := g 5, dios := g 6,
+        readIops := c.getD 0 z, readBw := c.getD 1 z, writeIops := c.getD 2 z, writeBw := c.getD 3 z,
+        trimIops := c.getD 4 z, trimBw := c.getD 5 z }
+
+def rawOf (t : Json) : Int := rawProtection (fInt t "cur") (fInt t "min") (fInt t "low")
+
+def statOf (sc : Json) (all : List Sib) (s : Sib) : Stat D F :=
+  let n := jnat sc "nticks"
+  let last := n - 1
+  let t := s.at last
+  let cur := fInt t "cur"
+  let raw := rawOf t
+  let prot :=
+    if jnat sc "depth" == 2 then
+      let pp := rawOf (tickAt (jarr sc "parent") last)
+      let sum := (all.map fun x => rawOf (x.at last)).foldl (· + ·) 0
+      normalizedProtection (D := D) raw pp sum
+    else raw
+  let curs := (List.range (n - s.born)).map fun i => fInt (s.at (s.born + i)) "cur"
+  let avg :=
+    if jstr sc "plugin" == "kill_by_memory_size_or_growth" then averageOver (Num.ofInt 4 : D) 0 curs
+    else averageUsage (Num.ofInt 4 : D) 0 cur
+  let hasPrev := n ≥ 2 && s.born + 1 ≤ last
+  let cumNow : D := ioCostCumulative (ioLines D sc t)
+  let cumPrev : Option D := if hasPrev then some (ioCostCumulative (ioLines D sc (s.at (last - 1)))) else none
+  let pgPrev : Option Int := if hasPrev then some (fInt (s.at (last - 1)) "pgscan") else none
+  let dec := fun (k : String) => let d := fDec t k; (Num.ofDec d.1 d.2 : F)
+  { id := s.idx, pref := s.prefS, cur := cur, prot := prot, avg := avg, swap := fInt t "swap",
+    mp10 := dec "mp10", mp60 := dec "mp60", ip10 := dec "ip10", ip60 := dec "ip60",
+    ioRate := ioCostRate cumPrev cumNow, pgRate := pgScanRate pgPrev (fInt t "pgscan") }
+
+end
+
+def thresholdArg (args : Json) : ThresholdArg :=
+  match jstr? args "threshold" with
+  | none => .default
+  | some s =>
+    if s.endsWith "%" then .percent (sInt (s.dropEnd 1).toString)
+    else
+      let last := s.toList.getLast?.getD '0'
+      let num := sInt (s.dropEnd 1).toString
+      match last.toLower with
+      | 'k' => .bytes (num * 2 ^ 10)
+      | 'm' => .bytes (num * 2 ^ 20)
+      | 'g' => .bytes (num * 2 ^ 30)
+      | 't' => .bytes (num * 2 ^ 40)
+      | _ => .bytes (sInt s * 2 ^ 20)
+
+def memKB (sc : Json) (k : String) : Option Int := (jstr? (jobj sc "meminfo") k).map fun s => sInt s * 1024
+
+def swapParams (sc : Json) : SwapParams :=
+  let args := jobj sc "args"
+  { threshold := thresholdArg args
+    biased := (jstr? args "biased_swap_kill").map (fun s => s == "true" || s == "True" || s == "1") |>.getD false
+    swapTotal := memKB sc "SwapTotal", memTotal := memKB sc "MemTotal" }
+
+def ratioDec (sc : Json) : Nat × Nat :=
+  match jstr? (jobj sc "args") "min_growth_ratio" with
+  | some s => parseDec s
+  | none => (125, 2)
+
+def growthParams (F : Type) [Num F] (v : Variant) (sc : Json) : GrowthParams F :=
+  let args := jobj sc "args"
+  let r := ratioDec sc
+  { sizeThreshold := fInt args "size_threshold" 50, percentile := fInt args "growing_size_percentile" 80,
+    minGrowthRatio := if jhas args "min_growth_ratio" then parseMinGrowthRatio v r.1 r.2 else Num.ofDec 125 2 }
+
+def resourceOf (sc : Json) : Resource := if jstr (jobj sc "args") "resource" == "io" then .io else .memory
+
+def ltOf {α : Type} [Num α] (a b : α) : Bool := Num.lt a b
+
+/-- does the model (variant `v`, number instance `D`/`F`) admit the implementation's order? -/
+def modelAdmits (D F : Type) [Num D] [Num F] [Narrow D F] (v : Variant) (sc : Json) (stats : List (Stat D F))
+    (order : List Nat) : Bool :=
+  match jstr sc "plugin" with
+  | "kill_by_memory_size_or_growth" =>
+    admitsIds ltGrowthKey (growthEntries (growthParams F v sc) stats) order
+  | "kill_by_swap_usage" => admitsIds ltInt (swapEntries v (swapParams sc) stats) order
+  | "kill_by_pressure" =>
+    if v.pressureInt then admitsIds ltInt (pressureEntriesLegacy (resourceOf sc) stats) order
+    else admitsIds (ltOf (α := F)) (pressureEntries (resourceOf sc) stats) order
+  | "kill_by_io_cost" => admitsIds (ltOf (α := D)) (ioCostEntries stats) order
+  | "kill_by_pg_scan" => admitsIds ltInt (pgScanEntries stats) order
+  | _ => false
+
+/-! ### comparison of the reported statistics with the model's (Float instance) -/
+
+def optIntJ (j : Json) (k : String) : Option Int := (jstr? j k).map sInt
+
+def statDiffs (plugin : String) (m : Stat Float Float32) (r : Json) : List String :=
+  let ck := fun (name : String) (ok : Bool) => if ok then [] else [name]
+  let i := fun (k : String) (v : Int) => ck k (optIntJ r k == some v)
+  let f32 := fun (k : String) (v : Float32) => ck k (optIntJ r k == some (v.toBits.toNat : Int))
+  let pref := ck "pref" ((jint? r "pref") == some m.pref)
+  pref ++
+  match plugin with
+  | "kill_by_memory_size_or_growth" =>
+    i "cur" m.cur ++ i "prot" m.prot ++ i "eff" m.eff ++ i "avg" m.avg ++
+      ck "growth" (optIntJ r "growth" == some ((memoryGrowth (D := Float) m.cur m.avg).toBits.toNat : Int))
+  | "kill_by_swap_usage" => i "swap" m.swap ++ i "cur" m.cur ++ i "prot" m.prot
+  | "kill_by_pressure" => f32 "mp10" m.mp10 ++ f32 "mp60" m.mp60 ++ f32 "ip10" m.ip10 ++ f32 "ip60" m.ip60
+  | "kill_by_io_cost" => ck "iorate" (optIntJ r "iorate" == some (m.ioRate.toBits.toNat : Int))
+  | "kill_by_pg_scan" => ck "pgrate" (optIntJ r "pgrate" == m.pgRate)
+  | _ => []
+
+/-! ### the oracle: documented policy in exact arithmetic, on intervals -/
+
+inductive Tri | yes | no | maybe
+deriving DecidableEq, Repr
+
+/-- one sibling as the documentation sees it: eligibility and an interval for the ranking quantity -/
+structure Cand where
+  idx : Nat
+  pref : Int
+  elig : Tri
+  lo : Rat
+  hi : Rat
+
+def rmax (a b : Rat) : Rat := if a < b then b else a
+def rmin (a b : Rat) : Rat := if b < a then b else a
+def rabs (a : Rat) : Rat := if a < 0 then -a else a
+def pow2 (n : Nat) : Rat := ((2 ^ n : Nat) : Rat)
+
+/-- first choice `c` is acceptable: possibly eligible and not certainly below a certainly eligible peer -/
+def headOKCand (cands : List Cand) (c : Cand) : Bool :=
+  c.elig != Tri.no && (cands.filter fun j => j.pref == c.pref && j.elig == Tri.yes).all fun j => decide (j.lo ≤ c.hi)
+
+structure Verdict where
+  viol : List String := []
+  cls : String := ""
+  rounding : Bool := false
+  info : String := ""
+
+/-- generic single-key plugins: `cands` with margins, `exact` with zero-width intervals -/
+def judgeSimple (what : String) (filtering : Bool) (cands exact : List Cand) (order : List Nat) : Verdict :=
+  let find := fun (l : List Cand) (i : Nat) => l.find? (·.idx == i)
+  let filterBad := filtering && order.any fun i => match find cands i with | some c => c.elig == Tri.no | none => true
+  let filterBadExact := filtering && order.any fun i => match find exact i with | some c => c.elig != Tri.yes | none => true
+  match order with
+  | [] =>
+    let someone := cands.any fun c => c.elig == Tri.yes
+    let someoneExact := exact.any fun c => c.elig == Tri.yes
+    { viol := if someone then [what ++ ".nothing_chosen"] else [], rounding := !someone && someoneExact }
+  | h :: _ =>
+    match find cands h, find exact h with
+    | some c, some ce =>
+      let ok := headOKCand cands c
+      let okE := headOKCand exact ce && ce.elig == Tri.yes
+      { viol := (if ok then [] else [what ++ ".head_is_max"]) ++ (if filterBad then [what ++ ".filter"] else []),
+        rounding := (ok && !okE) || (!filterBad && filterBadExact) }
+    | _, _ => { viol := [what ++ ".unknown_cgroup"] }
+
+structure Raw where
+  s : Sib
+  cur : Int
+  prot : Int
+  avg : Int
+  swap : Int
+  mpMean : Rat
+  ipMean : Rat
+  ioNow : Rat
+  ioPrev : Option Rat
+  pgNow : Int
+  pgPrev : Option Int
+
+def ioExact (sc : Json) (tick : Json) : Rat :=
+  ((ioLines Rat sc tick).map fun l =>
+    (l.rios : Rat) * l.readIops + (l.rbytes : Rat) * l.readBw + (l.wios : Rat) * l.writeIops
+      + (l.wbytes : Rat) * l.writeBw + (l.dios : Rat) * l.trimIops + (l.dbytes : Rat) * l.trimBw).foldl (· + ·) 0
+
+def rawOfSib (sc tr : Json) (s : Sib) : Raw :=
+  let n := jnat sc "nticks"
+  let last := n - 1
+  let t := s.at last
+  let rep := jobj (jobj tr "stats") s.name
+  let hasPrev := n ≥ 2 && s.born + 1 ≤ last
+  let mean := fun (a b : String) => (decRat (fDec t a) + decRat (fDec t b)) / 2
+  { s := s, cur := fInt t "cur", prot := (optIntJ rep "prot").getD 0, avg := (optIntJ rep "avg").getD 0,
+    swap := fInt t "swap", mpMean := mean "mp10" "mp60", ipMean := mean "ip10" "ip60",
+    ioNow := ioExact sc t, ioPrev := if hasPrev then some (ioExact sc (s.at (last - 1))) else none,
+    pgNow := fInt t "pgscan", pgPrev := if hasPrev then some (fInt (s.at (last - 1)) "pgscan") else none }
+
+def point (r : Raw) (e : Tri) (k : Rat) : Cand := { idx := r.s.idx, pref := r.s.prefS, elig := e, lo := k, hi := k }
+
+/-- kill_by_swap_usage: "the largest swap user above `threshold` (bytes or % of SwapTotal, optionally biased by protection)" -/
+def judgeSwap (sc : Json) (raws : List Raw) (order : List Nat) : Verdict :=
+  let p := swapParams sc
+  let st : Rat := ((p.swapTotal.getD 0 : Int) : Rat)
+  let mt : Rat := ((p.memTotal.getD 0 : Int) : Rat)
+  let thr : Rat := match p.threshold with
+    | .default => 1
+    | .percent pct => st * pct / 100
+    | .bytes b => b
+  let ratio : Rat := if p.memTotal.isSome && decide (0 < mt) then st / mt else 0
+  let mk := fun (margin : Bool) => raws.map fun r =>
+    let e := if (r.swap : Rat) > thr then Tri.yes else Tri.no
+    if p.biased then
+      let bias := ratio * r.prot
+      let x := (r.swap : Rat) - bias
+      let m : Rat := if margin then 1 + rabs bias / pow2 20 else 0
+      { idx := r.s.idx, pref := r.s.prefS, elig := e, lo := rmax 0 (x - m), hi := rmax 0 (x + m) : Cand }
+    else point r e r.swap
+  let v := judgeSimple "swap" true (mk true) (mk false) order
+  let big := decide (st ≥ pow2 31) || decide (mt ≥ pow2 31)
+  { v with cls := if v.viol.isEmpty then "" else if big then "swap-total-beyond-int32" else (v.viol.headD "").replace "." "-" }
+
+/-- kill_by_pressure: "the highest mean of 10 s and 60 s pressure" -/
+def judgePressure (sc : Json) (raws : List Raw) (order : List Nat) : Verdict :=
+  let io := resourceOf sc == .io
+  let mean := fun (r : Raw) => if io then r.ipMean else r.mpMean
+  let mk := fun (margin : Bool) => raws.map fun r =>
+    let m : Rat := if margin then 1 / 10000 else 0
+    { idx := r.s.idx, pref := r.s.prefS, elig := Tri.yes, lo := mean r - m, hi := mean r + m : Cand }
+  let v := judgeSimple "pressure" false (mk true) (mk false) order
+  -- input class of the known shape: the chosen one and a better peer have the same integer part of the mean
+  let sameBucket : Bool := match order with
+    | h :: _ => match raws.find? (·.s.idx == h) with
+      | some c => raws.any fun r => r.s.prefS == c.s.prefS && decide (mean c < mean r) && (mean r).floor == (mean c).floor
+      | none => false
+    | [] => false
+  { v with cls := if v.viol.isEmpty then "" else if sameBucket then "pressure-int-truncation-tie" else (v.viol.headD "").replace "." "-" }
+
+/-- kill_by_io_cost: "the largest io-cost increase" -/
+def judgeIoCost (raws : List Raw) (order : List Nat) : Verdict :=
+  let mk := fun (margin : Bool) => raws.map fun r =>
+    match r.ioPrev with
+    | some p =>
+      let d := r.ioNow - p
+      let m : Rat := if margin then (rabs r.ioNow + rabs p) / pow2 45 else 0
+      { idx := r.s.idx, pref := r.s.prefS, elig := Tri.yes, lo := d - m, hi := d + m : Cand }
+    | none => -- no history: the text does not say what the increase of a new cgroup is
+      { idx := r.s.idx, pref := r.s.prefS, elig := Tri.yes, lo := rmin 0 r.ioNow, hi := rmax 0 r.ioNow : Cand }
+  let v := judgeSimple "iocost" false (mk true) (mk false) order
+  { v with cls := if v.viol.isEmpty then "" else (v.viol.headD "").replace "." "-" }
+
+/-- kill_by_pg_scan: "the largest positive pgscan increase" -/
+def judgePgScan (raws : List Raw) (order : List Nat) : Verdict :=
+  let cands := raws.map fun r =>
+    match r.pgPrev with
+    | some p => point r (if r.pgNow - p > 0 then Tri.yes else Tri.no) ((r.pgNow - p : Int) : Rat)
+    | none => { idx := r.s.idx, pref := r.s.prefS, elig := Tri.maybe, lo := 0, hi := rmax 0 r.pgNow : Cand }
+  let v := judgeSimple "pgscan" true cands cands order
+  { v with cls := if v.viol.isEmpty then "" else (v.viol.headD "").replace "." "-" }
+
+def insertDescR (x : Int) : List Int → List Int
+  | [] => [x]
+  | y :: ys => if x ≥ y then x :: y :: ys else y :: insertDescR x ys
+
+structure GrowthOracle where
+  raws : List Raw
+  tEx : Rat                 -- size threshold in bytes, exact
+  total : Int
+  cut : Option Int          -- effective usage of the last member of the top percentile
+  r : Rat                   -- configured min_growth_ratio, exact
+  reprF : Bool              -- ... exactly representable as a float
+
+namespace GrowthOracle
+def effOf (x : Raw) : Int := x.cur - x.prot
+def inTop (o : GrowthOracle) (e : Int) : Bool := match o.cut with | some c => decide (e ≥ c) | none => true
+
+def sz (o : GrowthOracle) (margin : Bool) (x : Raw) : Tri :=
+  let mu : Rat := if margin && decide ((o.total : Rat) ≥ pow2 50) then (o.total : Rat) / pow2 50 else 0
+  let below : Rat := if margin then 2 + mu else 0
+  if (x.cur : Rat) ≥ o.tEx + mu then Tri.yes else if (x.cur : Rat) < o.tEx - below then Tri.no else Tri.maybe
+
+/-- growth eligibility and the interval of the growth ratio -/
+def gr (o : GrowthOracle) (margin : Bool) (x : Raw) : Tri × Rat × Rat :=
+  let eps : Rat := if margin then 1 / pow2 22 else 0
+  if !o.inTop (effOf x) then (Tri.no, 0, 0)
+  else if x.avg == 0 then
+    -- usage / 0: the text does not say; tolerated either way
+    (if margin then Tri.maybe else (if decide (o.r ≤ 0) then Tri.yes else Tri.no), 0, if margin then pow2 80 else 0)
+  else
+    let g : Rat := (x.cur : Rat) / (x.avg : Rat)
+    let smallInts := decide ((x.cur : Rat) < pow2 53) && decide ((x.avg : Rat) < pow2 53)
+    let el :=
+      if g ≥ o.r * (1 + eps) then Tri.yes
+      else if g == o.r && o.reprF && smallInts then Tri.yes
+      else if g < o.r * (1 - eps) then Tri.no
+      else Tri.maybe
+    (el, g * (1 - eps), g * (1 + eps))
+
+/-- (first choice acceptable, no certainly size-eligible peer has positive effective usage) -/
+def judge (o : GrowthOracle) (margin : Bool) (c : Raw) : Bool × Bool × String :=
+  let peers := o.raws.filter fun j => j.s.prefS == c.s.prefS
+  let sy := peers.filter fun j => o.sz margin j == Tri.yes
+  let caseA := o.sz margin c != Tri.no && sy.all fun j => decide (effOf c ≥ effOf j)
+  let gc := o.gr margin c
+  let gy := peers.filter fun j => (o.gr margin j).1 == Tri.yes
+  let caseB := sy.isEmpty && gc.1 != Tri.no && gy.all fun j => decide ((o.gr margin j).2.1 ≤ gc.2.2)
+  let caseC := sy.isEmpty && gy.isEmpty && peers.all fun j => decide (effOf c ≥ effOf j)
+  let zeroEff := !sy.isEmpty && sy.all fun j => decide (effOf j ≤ 0)
+  (caseA || caseB || caseC, zeroEff,
+    if caseA then "size" else if caseB then "growth" else if caseC then "fallback" else "none")
+end GrowthOracle
+
+/-- kill_by_memory_size_or_growth: "the largest by (usage - protection) among those holding at least
+    size_threshold % of the siblings' total, else the fastest grower (usage / moving average >=
+    min_growth_ratio) among the top growing_size_percentile by size, else the largest" -/
+def judgeGrowth (sc : Json) (raws : List Raw) (order : List Nat) : Verdict :=
+  let args := jobj sc "args"
+  let thrPct : Rat := ((fInt args "size_threshold" 50 : Int) : Rat)
+  let pctl := fInt args "growing_size_percentile" 80
+  let rd := ratioDec sc
+  let r : Rat := decRat rd
+  let total : Int := (raws.map (·.cur)).foldl (· + ·) 0
+  let n := raws.length
+  let effs := raws.map GrowthOracle.effOf
+  let k : Nat := (((n : Int) * (100 - pctl) + 99) / 100).toNat
+  let sorted := effs.foldr insertDescR []
+  let o : GrowthOracle :=
+    { raws := raws, tEx := (total : Rat) * thrPct / 100, total := total
+      cut := if pctl > 0 && n > 0 then sorted[k - 1]? else none
+      r := r
+      reprF := (List.range 24).any fun s => let x := r * pow2 s; x.den == 1 && decide (x < pow2 24) }
+  match order with
+  | [] => { viol := if raws.isEmpty then [] else ["growth.nothing_chosen"], cls := "growth-nothing-chosen" }
+  | h :: _ =>
+    match raws.find? (·.s.idx == h) with
+    | none => { viol := ["growth.unknown_cgroup"], cls := "growth-unknown-cgroup" }
+    | some c =>
+      let (ok, zeroEff, phase) := o.judge true c
+      let (okE, _, _) := o.judge false c
+      let frac := rd.2 > 0 && rd.1 % (10 ^ rd.2) != 0
+      { viol := if ok then [] else ["growth.head_is_documented_choice"]
+        cls := if ok then "" else if zeroEff then "growth-size-eligible-zero-effective-usage"
+               else if frac then "growth-fractional-min-growth-ratio" else "growth-head-is-documented-choice"
+        rounding := ok && !okE
+        info := phase }
+
+/-! ### glue -/
 
 def handle (j : Json) : Json :=
-  Json.mkObj [("id", Json.str (jstr (jobj j "s") "id")), ("error", Json.str "engine rank not implemented")]
+  let sc := jobj j "s"
+  let tr := jobj j "t"
+  let id := jstr sc "id"
+  let plugin := jstr sc "plugin"
+  if jstr tr "outcome" != "ok" then
+    verdict id false false ["outcome:" ++ jstr tr "outcome"] ("outcome:" ++ jstr tr "outcome")
+  else if (jint? tr "init") != some 0 then
+    verdict id false false ["init_rejected_valid_arguments"] "init-rejected"
+  else
+    let all := sibsOf sc
+    let targets := all.filter (·.target)
+    let nameIdx := fun (n : String) => (all.find? (·.name == n)).map (·.idx)
+    let order? := (jstrs tr "order").mapM nameIdx
+    let input? := (jstrs tr "input").mapM nameIdx
+    match order?, input? with
+    | some order, some input =>
+      let inputOK := input.isPerm (targets.map (·.idx))
+      let statsF : List (Stat Float Float32) := targets.map (statOf Float Float32 sc all)
+      let statsR : List (Stat Rat Rat) := targets.map (statOf Rat Rat sc all)
+      let diffs := (targets.zip statsF).flatMap fun (s, m) =>
+        (statDiffs plugin m (jobj (jobj tr "stats") s.name)).map (s.name ++ "." ++ ·)
+      let admF := modelAdmits Float Float32 Variant.fixed sc statsF order
+      let admLegacy := modelAdmits Float Float32 Variant.legacy sc statsF order
+      let admR := modelAdmits Rat Rat Variant.fixed sc statsR order
+      let raws := targets.map (rawOfSib sc tr)
+      let v : Verdict := match plugin with
+        | "kill_by_memory_size_or_growth" => judgeGrowth sc raws order
+        | "kill_by_swap_usage" => judgeSwap sc raws order
+        | "kill_by_pressure" => judgePressure sc raws order
+        | "kill_by_io_cost" => judgeIoCost raws order
+        | "kill_by_pg_scan" => judgePgScan raws order
+        | _ => { viol := ["unknown_plugin"] }
+      let accepts := inputOK && diffs.isEmpty && admF
+      verdict id accepts v.viol.isEmpty v.viol v.cls
+        [("stat_diffs", mkStrs diffs), ("model_admits", Json.bool admF), ("legacy_admits", Json.bool admLegacy),
+         ("rat_admits", Json.bool admR), ("rounding", Json.bool v.rounding), ("input_ok", Json.bool inputOK), ("info", Json.str v.info),
+         ("n_out", Json.num order.length)]
+    | _, _ => verdict id false false ["unknown_cgroup_in_trace"] "unknown-cgroup"
 
 end Driver.Rank
 
